@@ -35,6 +35,9 @@ FaitAccompli1 == {"fa1_partition", "fa1_iid"}
 \* ... and the fallback is the PartitionSampler (one seat per bin of equal residual stake)
 PartitionFallback == {"fa1_partition"}
 Decaying == {"decay"}
+\* the stake-weighted shuffle behind Turbine's trees (turbine/weighted_shuffle.rs); not a
+\* committee sampler (no k): judged by the Shuffle* predicates below
+ShuffleStrategies == {"weighted_shuffle"}
 
 ---------------------------------------------------------------------------
 (* stake arithmetic                                                        *)
@@ -126,6 +129,51 @@ MustReturn(strategy, zeros, npos, k, num, den) ==
   /\ (strategy \in Decaying => k <= CapSeats(num, den) * npos)
 
 ---------------------------------------------------------------------------
+(* weighted shuffle (WeightedShuffle::new / shuffle)                       *)
+(*                                                                         *)
+(* Doc comment of the type: "returned indices are unique in the range      *)
+(* [0, weights.len())", "zero weighted indices are shuffled and appear     *)
+(* only at the end, after non-zero weighted indices".  The shuffle is a    *)
+(* lazy iterator that removes what it returns: a partial draw is a prefix  *)
+(* of the full shuffle for the same random source, continuing with the     *)
+(* same source completes the full shuffle, and continuing with ANY source  *)
+(* returns exactly the validators not drawn so far.                        *)
+(* Nothing is excluded: the unchanged code builds and drains a shuffle for *)
+(* every stake vector, including the empty one and all-zero stakes (then   *)
+(* it is a uniform permutation).  Not modelled: "weights that overflow the *)
+(* total sum are treated as zero" (totals >= 2^64).                        *)
+
+Range(c) == {c[j] : j \in DOMAIN c}
+\* every validator exactly once
+ShufflePermutation(c, n) == Len(c) = n /\ Range(c) = 0 .. (n - 1)
+\* zero-weight validators only after all positive ones (npos = number of positive stakes);
+\* for a permutation this is: the first npos places hold no zero-weight validator
+ShuffleZerosLastDef(c, zeros) ==
+  \A a, b \in DOMAIN c : (a < b /\ c[a] \in zeros) => c[b] \in zeros
+ShuffleZerosLast(c, zeros, npos) ==
+  \A j \in DOMAIN c : j <= npos => c[j] \notin zeros
+\* a partial draw of m validators is the prefix of the full shuffle (same random source)
+ShufflePrefix(part, full, m) ==
+  part = SubSeq(full, 1, IF m < Len(full) THEN m ELSE Len(full))
+\* continuing after a partial draw with the same random source completes the full shuffle
+ShuffleContinues(part, cont, full) == part \o cont = full
+\* drawn validators are removed, nothing else: whatever source continues, it returns
+\* exactly the validators not drawn so far, each once
+ShuffleRemoves(part, rest, n) ==
+  /\ Len(part) + Len(rest) = n
+  /\ Range(rest) = (0 .. (n - 1)) \ Range(part)
+\* the remaining zero-weight validators still come last
+ShuffleRestZerosLast(part, rest, zeros, npos) ==
+  LET drawnPos == Cardinality(Range(part) \ zeros) IN
+  \A j \in DOMAIN rest : j <= npos - drawnPos => rest[j] \notin zeros
+
+\* canonical shuffle: positive validators in id order, then the zero-weight ones
+ZeroSeq(st) == LET RECURSIVE Build(_)
+                   Build(v) == IF v = Len(st) THEN <<>>
+                               ELSE (IF st[v + 1] = 0 THEN <<v>> ELSE <<>>) \o Build(v + 1)
+               IN Build(0)
+
+---------------------------------------------------------------------------
 (* canonical committees: used to show the predicates are satisfiable       *)
 
 \* floor seats for everybody in id order, remaining seats to the first positive validator
@@ -154,5 +202,6 @@ PosSeq(st) == LET P == Positive(st)
                   Build(v) == IF v = Len(st) THEN <<>>
                               ELSE (IF v \in P THEN <<v>> ELSE <<>>) \o Build(v + 1)
               IN Build(0)
+CanonShuffle(st) == PosSeq(st) \o ZeroSeq(st)
 CanonRR(st, k) == LET ps == PosSeq(st) IN [j \in 1 .. k |-> ps[((j - 1) % Len(ps)) + 1]]
 =============================================================================
